@@ -48,12 +48,17 @@ pub fn confirm(w: &Value) -> Value {
                 }
             }
         }
+        "fifo" => native::confirm_fifo(w),
+        "chunks" => native::confirm_chunks(w),
         _ => json!({"error": format!("unknown op {op}")}),
     }
 }
 
-pub fn run(name: &str, _seed: u64, _tier: &str) -> Value {
+pub fn run(name: &str, _seed: u64, tier: &str) -> Value {
     match name {
+        "c07_stream" => native::c07_stream(tier),
+        "c04_enum" => native::c04_enum(tier),
+        "c08_tables" => native::c08_tables(tier),
         _ => json!({"error": format!("unknown check {name}")}),
     }
 }
